@@ -39,7 +39,7 @@ CFG = {
                   "channels and requesters: mouse_exact, handle_total, replies_internal, events_exact, never_wedges, and for ALL runs never_stuck "
                   "(an internal move is enabled whenever effects are pending, in every reachable state), internal_runs_terminate / "
                   "every_internal_run_settles (every maximal internal schedule ends idle within 2*pending+queued moves), requesters_do_not_add_work (requester labels change neither pending effects nor queue: any interleaving with requesters has at most that many internal moves), stream_reaches_end "
-                  "(every stream is consumed to its end from every reachable state), flow_preserved / input_never_lost / "
+                  "(every stream is consumed to its end from every reachable state), stream_delivered_completely (for every stream a run exists after which the application has received every user-input event exactly once and in order), flow_preserved / input_never_lost / "
                   "input_never_lost_any_requester / input_never_lost_with_cpr, flag_lowered_only_by; (3) for the colour requesters (F303 repaired) "
                   "query_reply_exact: for every prefix and every 1-4 digit channel the answer is the XParseColor reading of the reply, "
                   "query_reply_rejected / malformed. Tied to the source by Gen/InputBody.lean (the bodies), Gen/Caps.lean (switch skeleton, send "
